@@ -706,6 +706,7 @@ fn step_apply(t: &mut Task, _host: u8, op: &Op, stats: &mut Stats, rh: &mut u64)
         ));
     }
     // success: bytes must be input XOR keystream[p..p+len]
+    *rh = crate::kit::sim::hash_bytes(&store[off..off + len]) | 1;
     let ks = t.spec.bytes(p, len);
     let mut bad = None;
     for i in 0..len {
